@@ -466,8 +466,10 @@ MC = {
 }
 
 
-EXTRA_POS = {'C12': (2, 9, '"logs", "kev", "tr"', 'CfgLogs', 'logs'), 'C14': (2, 9, '"logs", "fkev"', 'CfgLogs', 'logs')}
-EXTRA_NEG = {'C14': ((2, 10, '"tr", "fkev"', 'CfgNone', 'learn', 'clearAtOpen'), 'tables cleared when a listing is requested, filled at its first next()')}
+EXTRA_POS = {'C12': (2, 9, '"logs", "kev", "tr"', 'CfgLogs', 'logs'), 'C14': (2, 9, '"logs", "fkev"', 'CfgLogs', 'logs'),
+             'C13': (2, 9, '"kev", "tr"', 'CfgTwo', 'names')}      # use before definition: a record read before the record that names its thread
+EXTRA_NEG = {'C13': ((2, 8, '"tr"', 'CfgNone', 'names', 'namesOnObject'), 'thread names / global strings learned by a trace listing kept on the object'),
+             'C14': ((2, 10, '"tr", "fkev"', 'CfgNone', 'learn', 'clearAtOpen'), 'tables cleared when a listing is requested, filled at its first next()')}
 
 
 def model_check(ctx):
@@ -491,6 +493,10 @@ def model_check(ctx):
         cfg = (MC_CFG % (c + ('ok',))).replace('INVARIANT CleanIsAtomic\nINVARIANT SelectionIsAtomic', 'INVARIANT ' + w_)
         ctx.expect_violation(run_tlc('Sessions_MC', cfg, ctx.workdir, name='sessions_witness_' + w_, timeout=900, allow_error=True),
                              'witness: ' + w_)
+    if ctx.prop == 'C13':
+        cfg = (MC_CFG % (EXTRA_POS['C13'] + ('ok',))).replace('INVARIANT CleanIsAtomic\nINVARIANT SelectionIsAtomic', 'INVARIANT NeverNamedThread')
+        ctx.expect_violation(run_tlc('Sessions_MC', cfg, ctx.workdir, name='sessions_witness_NeverNamedThread', timeout=900, allow_error=True),
+                             'witness: NeverNamedThread')
     # spec -> code: schedules exported by TLC replayed on the real object
     from . import c13 as _c13
     replay_tlc_schedules(ctx, random.Random(ctx.seed + 4), 250 if ctx.quick else 5000, c[2], c[4],
